@@ -25,7 +25,7 @@ from vlib import Check, RunnerPool, compile_job, driver, log
 from props import c03_gen as G
 
 FUEL = 600
-DEV_ALL = "e"          # the code as it stands (Grass.Eval.Dev.now): only N3 is still as found
+DEV_ALL = "e"          # the code as it stands (Grass.Eval.Dev.now): N3 is still as found; N5 was repaired (8433dfd)
 DEV_TAGS = {"e": "N3-empty-list-declaration"}
 
 ERR_CLASSES = [
@@ -46,6 +46,7 @@ ERR_CLASSES = [
     (r"^Mixin doesn't accept a content block\.", "no-content-accepted"),
     (r"^Duplicate key\.", "duplicate-key"),
     (r"Invalid index ", "index-out-of-bounds"),
+    (r"^Incompatible units ", "incompatible-units"),
 ]
 
 
@@ -262,6 +263,33 @@ CORPUS = [
     # precedence / unary minus spellings that once confused the printer
     (("debug", ("list", (("num", F(5)), ("bin", "add", ("neg", ("num", F(-6))), ("num", F(3)))), "s", False)),),
     (("debug", ("neg", ("call", "length", (("list", (), "u", False),), (), None))),),
+    # round 3 -- N5 (fixed by 8433dfd; regression cases): null + "quoted" kept the quote characters in an unquoted string
+    (("debug", ("bin", "add", ("null",), ("str", "foo", True))),),
+    (("var", "x", ("null",), False, False), ("var", "x", ("bin", "add", ("var", "x"), ("str", "foo", True)), False, True),
+     ("rule", "a", (("decl", "p", ("bin", "add", ("var", "x"), ("str", "bar", True))),))),
+    # division spellings: literal/literal is parenthesised (a bare `6px / 4px` is a slash pair), -10 from neg(10) too
+    (("debug", ("bin", "div", ("num", F(6), "px"), ("num", F(4), "px"))),
+     ("debug", ("list", (("bin", "div", ("neg", ("num", F(10))), ("num", F(-2))), ("num", F(1))), "s", False)),
+     ("var", "v", ("num", F(3), "em"), False, False),
+     ("debug", ("bin", "div", ("var", "v"), ("num", F(2)))),
+     ("debug", ("call", "math.div", (("num", F(1)), ("num", F(2), "em")), (), None)),
+     ("debug", ("bin", "mul", ("var", "v"), ("var", "v"))),
+     ("rule", "a", (("decl", "w", ("bin", "mod", ("num", F(7), "em"), ("var", "v"))),
+                    ("decl", "p", ("bin", "div", ("num", F(1)), ("var", "v")))))),
+    # incompatible units; comparison with a unitless number
+    (("debug", ("bin", "lt", ("num", F(1), "px"), ("num", F(2)))), ("debug", ("bin", "eq", ("num", F(1), "px"), ("num", F(1)))),
+     ("debug", ("bin", "add", ("num", F(1), "px"), ("num", F(1), "em")))),
+    # interpolation: quotes are lost at every list level, null vanishes, unquoted interpolation, property names
+    (("debug", ("interp", True, (("a ", ("list", (("str", "x y", True), ("null",), ("num", F(1), "px")), "c", False)), ("e", None)))),
+     ("rule", "a", (("decli", (("p-", ("str", "q", True)), ("-z", None)), ("interp", False, (("k", ("num", F(2))), ("m", None)))),))),
+    # if() is lazy; meta built-ins see the current scope chain
+    (("var", "a_b", ("num", F(1)), False, False),
+     ("debug", ("if", ("call", "variable-exists", (("str", "a-b", False),), (), None), ("num", F(1)), ("var", "nope"))),
+     ("rule", "a", (("var", "l", ("num", F(1)), False, False),
+                    ("debug", ("list", (("call", "variable-exists", (("str", "l", True),), (), None),
+                                        ("call", "global-variable-exists", (("str", "l", False),), (), None),
+                                        ("call", "function-exists", (("str", "nofn1", False),), (), None),
+                                        ("call", "mixin-exists", (("str", "nomx", False),), (), None)), "s", False))))),
 ]
 
 
@@ -332,7 +360,7 @@ def eval_stream(ck, pool, tier, syntaxes=("scss",)):
                 ck.cov["unsupported_dropped"] += 1
                 ck.hist("model:" + mo)
                 continue
-            nontrivial = any(f in feats for f in ("fn-call", "@include", "nested-assign", "!global", "corpus"))
+            nontrivial = any(f in feats for f in ("fn-call", "@include", "nested-assign", "!global", "corpus", "units", "div"))
             ck.count("eval " + G.to_tokens(p), nontrivial)
             for f in feats:
                 ck.hist("feature:" + f)
@@ -572,6 +600,7 @@ def run(tier, seed):
                       "type- and scope-directed programs; distinct by token form, non-trivial when they call a user "
                       "function, include a mixin, assign from a nested scope or use !global.")
     ck.assumptions = ["numbers restricted to dyadic rationals exactly representable as doubles with <= 10 decimals",
+                      "units restricted to the pairwise inconvertible names px em rem % s deg vw fr (no unit conversion)",
                       "declarations compared per selector (rule ordering belongs to C04)",
                       "errors compared by class (plus the @error message) together with the log trace up to the error",
                       ]
